@@ -1,5 +1,5 @@
 SPECIFICATION TSpec
-CONSTANTS MaxLen = 8
+CONSTANTS MaxLen = 64
   MaxOps = 100000
   Pool <- Pool4
   Pts <- Pts3
